@@ -57,6 +57,7 @@ ASSUMPTIONS = [
 PFX = ["ping", "retry", "ping:1"]
 CLS = ["A", "B", "C", "D", "R", "N"]          # 5 = NumberCache itself (filter only)
 GRID = 125
+MAX_BODY_RUNS = 3
 
 
 class Boom(Exception):
@@ -138,6 +139,8 @@ class Run:
         self.history: dict[int, list[str]] = {}
         self.sd = False
         self.in_fire: int | None = None
+        self.swept = False
+        self.body_runs: dict[int, int] = {}
         self._cm_last = None
         self.stats = {"added": 0, "claimed": 0, "timeout": 0, "dropped": 0, "keyerror": 0, "dup": 0, "inuse": 0,
                       "woken_cancel": 0, "same_instant_pop": 0, "body_ops": 0, "late_add_shutdown": 0}
@@ -209,9 +212,29 @@ class Run:
             else:
                 self.log.append((t, line, reply + " | " + self.digest()))
 
+    def sweep(self):
+        """between events (never inside an on_timeout): table and timers must match the outstanding requests"""
+        if self.swept:
+            return
+        for (p, n) in self.universe:
+            o = self.rc.get(PFX[p], n)
+            exp = self.outstanding.get((p, n))
+            if o is not None and exp is None:
+                self.swept = True
+                self.fail("RequestCache:identifier-without-outstanding-request",
+                          f"at {self.now()} ms the table holds request {getattr(o, '_k', '?')} under {(p, n)} although "
+                          f"no request is outstanding there (it can be handed to a late response)")
+            elif o is not None and not self.rc.is_pending_task_active(o):
+                self.swept = True
+                self.fail("RequestCache:outstanding-without-timer",
+                          f"at {self.now()} ms request {exp} {(p, n)} is registered but has no live timeout task: it "
+                          f"can never time out")
+
     def pre(self, from_fire=False):
         """before any event: emit lazily logged events, then a tick if virtual time moved"""
         self.flush(from_fire)
+        if not from_fire and self.in_fire is None:
+            self.sweep()
         t = self.now()
         if t != self.last_t:
             for ident, k in list(self.outstanding.items()):
@@ -250,8 +273,12 @@ class Run:
         self.emit(f"fb {self.idx[k]}", f"timeout {self.idx[k]}")
         pend_before = []
         self.in_fire = k
+        # a body that re-registers its own request runs at most MAX_BODY_RUNS times (then the request just times
+        # out), otherwise a zero-delay passthrough would make the scripted history infinite
+        self.body_runs[k] = self.body_runs.get(k, 0) + 1
+        body = (self.specs[k].get("body") or []) if self.body_runs[k] <= MAX_BODY_RUNS else []
         try:
-            for op in self.specs[k].get("body") or []:
+            for op in body:
                 self.stats["body_ops"] += 1
                 if op[0] == "raise":
                     self.lazy.append((t, "fa", f"aborted {self.idx[k]}", None))
@@ -361,8 +388,10 @@ class Run:
             return
         if kind == "add":
             k = op[1]
-            if k not in self.objs or self.in_fire == k:
+            if k not in self.objs:
                 return
+            if self.in_fire == k:
+                self.stats["self_readd"] = self.stats.get("self_readd", 0) + 1
             o = self.objs[k]
             sp = self.specs[k]
             ident = (sp["p"], o.number)
@@ -372,6 +401,12 @@ class Run:
                 self.emit(f"add {self.idx[k]}", "assert")
                 return
             except RuntimeError:
+                # a refused registration must leave nothing behind: an identifier stored by the failed add would
+                # never time out and would hand a resolved request to a later response
+                if ident not in self.outstanding and self.rc.get(PFX[sp["p"]], o.number) is o:
+                    self.fail("RequestCache.add:failed-add-left-identifier",
+                              f"add of request {k} raised RuntimeError at {t} ms but left identity {ident} in the table "
+                              f"(no timeout task behind it)")
                 self.emit(f"add {self.idx[k]}", "raised")
                 return
             if self.sd:
@@ -674,7 +709,9 @@ def gen_random(rng, size: int) -> dict:
             return ["mkadd", k2]
         if r < 0.75:
             ks = [k for k in specs if specs[k] is not None and k != owner]
-            return ["add", rng.choice(ks)] if ks else ["get", p, n]
+            if rng.random() < 0.3 or not ks:
+                return ["add", owner]          # re-register the request whose on_timeout is running
+            return ["add", rng.choice(ks)]
         if r < 0.82:
             return ["clear"]
         if r < 0.9:
@@ -765,6 +802,10 @@ def lanes_case(n, same_ident, pops, glob, bodies, stagger=False) -> dict:
         elif b == "fresh":
             specs[100 + i] = spec(ident[0], ident[1], 500, 0, [2], [])
             body = [["mkadd", 100 + i], ["get", ident[0], ident[1]]]
+        elif b == "readd":
+            body = [["add", i], ["get", ident[0], ident[1]]]
+        elif b == "clear_readd":
+            body = [["clear"], ["add", i], ["get", ident[0], ident[1]]]
         # stagger: cache i expires 125 ms after cache i-1, so the lanes race the FIRST expiry while later ones are
         # still asleep (different timeout values)
         specs[i] = spec(ident[0], ident[1], d + (GRID * i if stagger else 0), 0, [i % 3], body)
@@ -787,7 +828,7 @@ def lanes_space(n, full, stagger=False):
     lanes = LANES if full else ["at1", "hop1", "hop2"]
     pop_opts = [None] + lanes
     glob_opts = [None] + [(g, ln) for g in ("clear", "shutdown") for ln in lanes]
-    body_opts = [None, "next", "self", "fresh"] if n <= 2 else [None, "next"]
+    body_opts = [None, "next", "self", "fresh", "readd", "clear_readd"] if n <= 2 else [None, "next", "readd"]
     for same in ([False, True] if n > 1 else [False]):
         for pops in itertools.product(pop_opts, repeat=n):
             for glob in glob_opts:
@@ -913,7 +954,7 @@ def family_cases(ctx: Ctx):
             for _ in range(cnt):
                 a = (n, rng.random() < 0.5, tuple(rng.choice([None] + lanes) for _ in range(n)),
                      rng.choice([None] + [(g, ln) for g in ("clear", "shutdown") for ln in lanes]),
-                     tuple(rng.choice([None, "next"]) for _ in range(n)))
+                     tuple(rng.choice([None, "next", "readd"]) for _ in range(n)))
                 yield lanes_case(*a)
         for seq, atd in seq_space(3):
             yield seq_case([SEQ_ALPHABET[i] for i in seq], atd)
